@@ -1,5 +1,5 @@
 (* C11 proofs *)
-From Coq Require Import QArith Qround Qabs Lqa List Bool Arith Lia.
+From Coq Require Import QArith Qround Qabs Lqa List Bool Arith Lia Setoid.
 Import ListNotations.
 From PV Require Import Lib.WLS BSpline.Eval BSpline.EvalProofs C11.Model.
 Open Scope Q_scope.
@@ -11,4 +11,89 @@ Proof.
   { induction idx as [|i idx IH]; intros vals l; [reflexivity|]. destruct vals as [|a vals]; [reflexivity|].
     cbn [set_many]. rewrite IH. clear. revert i. induction l as [|b l IHl]; intros [|i]; cbn; auto. }
   rewrite !H. reflexivity.
+Qed.
+
+(* ------------------------------------------------------------------ preprocess_spectra: the de-redshifting shift
+   (logshift = log10(1+z) is a parameter: the statements are algebraic identities on the grid) *)
+Lemma shift_grid_length s l : length (shift_grid s l) = length l.
+Proof. apply map_length. Qed.
+
+(* a pixel at log-wavelength L is handed to the resampler at L - logshift *)
+Theorem shift_grid_nth s l i : (i < length l)%nat -> nthQ (shift_grid s l) i = nthQ l i - s.
+Proof.
+  intro H. unfold nthQ, shift_grid.
+  rewrite (nth_indep _ 0 (0 - s)) by (rewrite map_length; exact H).
+  apply (map_nth (fun L => L - s)).
+Qed.
+
+Theorem preprocess_is_shifted_call shift c fits :
+  preprocess_model shift c fits =
+  combine1fiber_model (mkCin (shift_grid shift (c_inloglam c)) (c_flux c) (c_ivar c) (c_specnum c) (c_nspec c)
+                             (c_newloglam c) (c_maxsep c) (c_k c) (c_method c) (c_isort c)) fits.
+Proof. reflexivity. Qed.
+
+Lemma Qltb_compat a a' b b' : a == a' -> b == b' -> Qltb a b = Qltb a' b'.
+Proof.
+  intros Ha Hb. destruct (Qltb a b) eqn:E; symmetry.
+  - apply Qltb_lt. apply Qltb_lt in E. rewrite <- Ha, <- Hb. exact E.
+  - apply Qltb_ge. apply Qltb_ge in E. rewrite <- Ha, <- Hb. exact E.
+Qed.
+
+Lemma Qle_bool_compat a a' b b' : a == a' -> b == b' -> Qle_bool a b = Qle_bool a' b'.
+Proof.
+  intros Ha Hb. destruct (Qle_bool a b) eqn:E; symmetry.
+  - apply Qle_bool_iff. apply Qle_bool_iff in E. rewrite <- Ha, <- Hb. exact E.
+  - destruct (Qle_bool a' b') eqn:E'; [|reflexivity]. apply Qle_bool_iff in E'.
+    rewrite <- Ha, <- Hb in E'. apply Qle_bool_iff in E'. congruence.
+Qed.
+
+(* the grouping only looks at differences of wavelengths: it does not see the shift *)
+Lemma gap_after_shift maxsep s w : gap_after maxsep (map (fun L => L - s) w) = gap_after maxsep w.
+Proof.
+  induction w as [|a w IH]; [reflexivity|].
+  destruct w as [|b w]; [reflexivity|].
+  cbn [map gap_after] in *. rewrite IH. f_equal. apply Qltb_compat; [reflexivity | ring].
+Qed.
+
+Theorem groups_shift_invariant maxsep s l isort :
+  Forall (fun i => (i < length l)%nat) isort ->
+  groups maxsep (shift_grid s l) isort = groups maxsep l isort.
+Proof.
+  intro H. unfold groups. f_equal.
+  replace (map (nthQ (shift_grid s l)) isort) with (map (fun L => L - s) (map (nthQ l) isort)).
+  - apply gap_after_shift.
+  - rewrite map_map. apply map_ext_in. intros i Hi. symmetry. apply shift_grid_nth.
+    rewrite Forall_forall in H. exact (H i Hi).
+Qed.
+
+Lemma Qltb_shift a b s : Qltb (a - s) (b - s) = Qltb a b.
+Proof.
+  destruct (Qltb a b) eqn:E.
+  - apply Qltb_lt. apply Qltb_lt in E. lra.
+  - apply Qltb_ge. apply Qltb_ge in E. lra.
+Qed.
+Lemma Qle_bool_shift a b s : Qle_bool (a - s) (b - s) = Qle_bool a b.
+Proof.
+  destruct (Qle_bool a b) eqn:E.
+  - apply Qle_bool_iff. apply Qle_bool_iff in E. lra.
+  - destruct (Qle_bool (a - s) (b - s)) eqn:E'; [|reflexivity].
+    apply Qle_bool_iff in E'. assert (H : a <= b) by lra. apply Qle_bool_iff in H. congruence.
+Qed.
+
+(* np.interp is translation covariant: shifting the nodes and the evaluation point together changes nothing *)
+Lemma interp_from_shift s rest : forall x0 y0 p,
+  interp_from (x0 - s) y0 (map (fun q => (fst q - s, snd q)) rest) (p - s) == interp_from x0 y0 rest p.
+Proof.
+  induction rest as [|[x1 y1] rest IH]; intros x0 y0 p; cbn [map interp_from fst snd]; [reflexivity|].
+  rewrite Qltb_shift. destruct (Qltb p x1); [|apply IH].
+  assert (E1 : p - s - (x0 - s) == p - x0) by ring.
+  assert (E2 : x1 - s - (x0 - s) == x1 - x0) by ring.
+  rewrite E1, E2. reflexivity.
+Qed.
+
+Theorem interp_shift s pts p :
+  interp (map (fun q => (fst q - s, snd q)) pts) (p - s) == interp pts p.
+Proof.
+  destruct pts as [|[x0 y0] rest]; cbn [map interp fst snd]; [reflexivity|].
+  rewrite Qle_bool_shift. destruct (Qle_bool p x0); [reflexivity | apply interp_from_shift].
 Qed.
